@@ -313,6 +313,7 @@ def _r4_callers(ctx, pkg, rule="R4"):
             if not isinstance(fn, (ast.FunctionDef, ast.AsyncFunctionDef)):
                 continue
             names = {}
+            calls = {}
             for st in ast.walk(fn):
                 if isinstance(st, ast.Assign) and isinstance(st.value, ast.Call) and isinstance(st.value.func, ast.Attribute) and st.value.func.attr == "find_duplicate_reaction":
                     t = st.targets[0]
@@ -320,8 +321,10 @@ def _r4_callers(ctx, pkg, rule="R4"):
                         for i, e in enumerate(t.elts):
                             if isinstance(e, ast.Name) and e.id != "_":
                                 names[e.id] = i
+                                calls[e.id] = st.value
                     elif isinstance(t, ast.Name):
                         names[t.id] = None
+                        calls[t.id] = st.value
             for c in ast.walk(fn):
                 if isinstance(c, ast.Call) and isinstance(c.func, ast.Attribute) and c.func.attr == "remove_reaction" and c.args:
                     a = c.args[0]
@@ -336,6 +339,21 @@ def _r4_callers(ctx, pkg, rule="R4"):
                     else:
                         continue
                     n += 1
+                    # what is REMOVED is decided by reaction equality: the text modes ("short", "minimal", ...) round the window and
+                    # print the type by name -- they are for reporting, a removal based on them drops reactions that are not equal
+                    src = calls.get(a.id) if isinstance(a, ast.Name) else calls.get(a.value.id) if isinstance(a, ast.Subscript) and isinstance(a.value, ast.Name) else \
+                        a.value if isinstance(a, ast.Subscript) and isinstance(a.value, ast.Call) else None
+                    if src is not None:
+                        mode = (src.args[0] if src.args else next((k.value for k in src.keywords if k.arg == "mode"), None))
+                        plain = mode is None or (isinstance(mode, ast.Constant) and mode.value in (None, ""))
+                        if plain or isinstance(mode, ast.Constant):
+                            ctx.check(plain, rule, f"{f.rsplit('/', 1)[1]}:{fn.name}:removal decided by reaction equality", (f, c.lineno),
+                                      "the duplicates that are removed were found by comparing the reactions themselves" if plain else
+                                      f"the reactions removed are the duplicates under the TEXT mode {ast.unparse(mode)}: that text rounds the temperature window and spells the type by name, "
+                                      "so a reaction that is not equal to any other (Tmax 298.20 next to 298.16) is removed, and an untyped copy of a typed reaction is kept",
+                                      expected="find_duplicate_reaction() (mode None)", found=ast.unparse(src)[:80])
+                        else:
+                            ctx.unrec(rule, f"{f.rsplit('/', 1)[1]}:{fn.name}:removal decided by reaction equality", (f, c.lineno), f"comparison mode is not a literal: {ast.unparse(mode)[:60]}")
                     ctx.check(got == ipos, rule, f"{f.rsplit('/', 1)[1]}:{fn.name}:remove_reaction(duplicates)", (f, c.lineno),
                               "the positions of the later copies are removed" if got == ipos else
                               "the duplicate OBJECTS (or the first occurrences) are passed to remove_reaction, which removes every reaction EQUAL to them -- the copy to keep is removed too",
@@ -351,6 +369,7 @@ MUTANTS = [
         {"file": RF, "old": '            raise ValueError(f"Unknown format: {form}")\n\n        return verbose', "new": '            raise ValueError(f"Unknown format: {form}")\n\n        self._kf[form] = verbose\n        return verbose'}], "rules": ["R5"]},
     {"name": "seen-table-last-index", "file": NF, "old": "            if chk not in seen:\n                seen[chk] = [idx]\n            else:\n                if len(seen[chk]) >= 1:\n                    dupes.append(reactions[idx])\n                    dupidx.append(idx)\n                seen[chk].append(idx)\n",
      "new": "            if chk in seen:\n                dupes.append(reactions[idx])\n                dupidx.append(idx)\n            seen[chk] = [idx]\n", "rules": ["R3"]},
+    {"name": "extend-removes-dupes-by-text", "file": "naunet/console/commands/extend.py", "old": "            _, dupidx, _ = net.find_duplicate_reaction()\n", "new": "            _, dupidx, _ = net.find_duplicate_reaction(mode=\"short\")\n", "rules": ["R4"]},
     {"name": "extend-removes-dupes-by-object", "file": "naunet/console/commands/extend.py", "old": "            _, dupidx, _ = net.find_duplicate_reaction()\n            net.remove_reaction(dupidx)", "new": "            dupes, _, _ = net.find_duplicate_reaction()\n            net.remove_reaction(dupes)", "rules": ["R4"]},
     {"name": "hash-reads-temp-min", "file": RF, "old": "                frozenset(Counter(self.products).items()),\n", "new": "                frozenset(Counter(self.products).items()),\n                self.alpha,\n", "rules": ["R1"]},
     {"name": "hash-sorted-by-name", "file": RF, "old": "        return hash(\n            (\n                frozenset(Counter(self.reactants).items()),\n                frozenset(Counter(self.products).items()),\n            )\n        )\n", "new": "        return hash(tuple([*sorted(self.reactants), *sorted(self.products)]))\n", "rules": ["R1"]},
